@@ -652,11 +652,17 @@ def run(tier, seed, model_ok=True):
         check_case(res, c, sr, model_ok)
     check_tokens(res, binary, seed, tier, model_ok)
     observe_leak(res, binary, seed, tier)
+    from lib import swaprace
+    for kind in ("ser", "deser", "deserset", "deserbag"):     # operations issued right after serialize() / deserialize() returned
+        swaprace.run(res, kind, tier, seed)
     return res
 
 
 def replay(data):
     """re-run the recorded case; True when the failure does NOT reproduce"""
+    if (data.get("case") or {}).get("harness") == "swaprace":
+        from lib import swaprace
+        return swaprace.replay(data)
     case = data.get("case") or {}
     if "kind" not in case or "n" not in case:
         print("replay: nothing executable recorded:", data.get("no_longer_checks") or data.get("what"))
